@@ -1,3 +1,4 @@
+import OutlineModel.Proofs.TieNatConn
 import OutlineModel.Model.NatConn
 import OutlineModel.Props.C16
 import OutlineModel.Gen.Consts
@@ -155,5 +156,45 @@ theorem constants : Gen.dnsTimeoutNs = 17000000000 ∧ Gen.dnsPort = "53" ∧ Ge
 /- non-vacuity -/
 example : (onRead (onWrite init true 5 300 17).1 true 6).1.fired = true := by decide
 example : (onRead (onWrite (onWrite init true 5 300 17).1 true 6 300 17).1 true 7).1.fired = false := by decide
+
+
+/-! ### The same deadline logic, about the code itself
+
+`Gen.Code.natconn.onWrite` / `.onRead` are TRANSLATED from service/udp.go on every run (extract/golean.go);
+`SetReadDeadline` calls are recorded in the `eff` field, `time.Now()` is the parameter `now`, `isDNS` is a
+parameter.  For all inputs the translated functions never panic and simulate the model (relation
+`Tie.NatConn.R`: same deadline, same latch, same last deadline set on the socket). -/
+
+theorem code_onWrite_refines_model (isDNS : GoRT.Opaque "net.Addr" → Bool) (now timeout : Nat) (c : Gen.Code.natconn) (s : S)
+    (addr : GoRT.Opaque "net.Addr") (hR : Tie.NatConn.R timeout c s) :
+    ∃ c', Gen.Code.natconn.onWrite isDNS (now : Int) c addr = some c' ∧
+      Tie.NatConn.R timeout c' (onWrite s (isDNS addr) now timeout Gen.dnsTimeoutNs).1 ∧
+      c'.eff = c.eff ++ Tie.NatConn.effOf (onWrite s (isDNS addr) now timeout Gen.dnsTimeoutNs).2 :=
+  Tie.NatConn.onWrite_tie isDNS now timeout c s addr hR
+
+theorem code_onRead_refines_model (isDNS : GoRT.Opaque "net.Addr" → Bool) (now timeout : Nat) (c : Gen.Code.natconn) (s : S)
+    (addr : GoRT.Opaque "net.Addr") (hR : Tie.NatConn.R timeout c s) :
+    ∃ c', Gen.Code.natconn.onRead isDNS (now : Int) c addr = some c' ∧
+      Tie.NatConn.R timeout c' (onRead s (isDNS addr) now).1 ∧
+      c'.eff = c.eff ++ Tie.NatConn.effOf (onRead s (isDNS addr) now).2 :=
+  Tie.NatConn.onRead_tie isDNS now timeout c s addr hR
+
+/-- **code_promise_kept**: directly about the translated `onWrite`: after it, the deadline set on the socket
+    (the last recorded `SetReadDeadline`) is at least `now + timeout` for a non-DNS destination and at least
+    `now + 17 s` for a DNS one, whatever happened before. -/
+theorem code_promise_kept (isDNS : GoRT.Opaque "net.Addr" → Bool) (now timeout : Nat) (c : Gen.Code.natconn) (s : S)
+    (addr : GoRT.Opaque "net.Addr") (hR : Tie.NatConn.R timeout c s) (hJ : J s now) (hpos : 0 < now)
+    (alive : s.sock = none ∨ ∃ d, s.sock = some d ∧ now < d) :
+    ∃ (c' : Gen.Code.natconn) (d : Nat), Gen.Code.natconn.onWrite isDNS (now : Int) c addr = some c' ∧
+      Tie.NatConn.lastSet c'.eff = some (d : Int) ∧
+      (now + (if isDNS addr then Gen.dnsTimeoutNs else timeout) : Nat) ≤ d := by
+  obtain ⟨c', h1, h2, _⟩ := Tie.NatConn.onWrite_tie isDNS now timeout c s addr hR
+  obtain ⟨d, hd1, hd2⟩ := promise_kept s (isDNS addr) now timeout hJ hpos alive
+  refine ⟨c', d, h1, ?_, hd2⟩
+  rw [h2.2.2.2, hd1]; rfl
+
+/- non-vacuity: the initial translated association is related to the model's initial state -/
+example : Tie.NatConn.R 300 { Gen.Code.natconn.zero with defaultTimeout := 300 } init := by
+  simp [Tie.NatConn.R, Gen.Code.natconn.zero, init, Tie.NatConn.lastSet]
 
 end OutlineModel.Props.C14
